@@ -14,14 +14,17 @@ use std::panic::{catch_unwind, AssertUnwindSafe};
 use std::sync::{Arc, Mutex as StdMutex};
 
 thread_local! {
-    static MEMO: RefCell<HashMap<String, Result<Val, CalcFail>>> = RefCell::new(HashMap::new());
+    // keyed by a 64-bit hash of (program text, operand values); bounded, because a thorough run asks
+    // millions of distinct questions and sixteen workers share the machine's memory
+    static MEMO: RefCell<HashMap<u64, Result<Val, CalcFail>>> = RefCell::new(HashMap::new());
     pub static CALC_STATS: RefCell<(u64, u64)> = RefCell::new((0, 0)); // (hits, misses)
 }
 
 struct EngineCalc;
 
 fn eval_on(text: &str, vars: &[(&str, &Val)]) -> Result<Val, CalcFail> {
-    let key = format!("{}|{}", text, vars.iter().map(|(_, v)| v.show()).collect::<Vec<_>>().join("|"));
+    let key_text = format!("{}|{}", text, vars.iter().map(|(_, v)| v.show()).collect::<Vec<_>>().join("|"));
+    let key = crate::prng::h64(key_text.as_bytes());
     if let Some(r) = MEMO.with(|m| m.borrow().get(&key).cloned()) {
         CALC_STATS.with(|s| s.borrow_mut().0 += 1);
         return r;
@@ -36,11 +39,11 @@ fn eval_on(text: &str, vars: &[(&str, &Val)]) -> Result<Val, CalcFail> {
     })) {
         Ok(Ok(v)) => Ok(Val::from_engine(&v)),
         Ok(Err(_)) => Err(CalcFail::Err),
-        Err(_) => Err(CalcFail::Broken(format!("engine panicked evaluating {}", key))),
+        Err(_) => Err(CalcFail::Broken(format!("engine panicked evaluating {}", key_text.chars().take(80).collect::<String>()))),
     };
     MEMO.with(|m| {
         let mut m = m.borrow_mut();
-        if m.len() > 2_000_000 {
+        if m.len() > 200_000 {
             m.clear();
         }
         m.insert(key, r.clone());
